@@ -1,7 +1,7 @@
 (* Lgtp2 — executable model of layers/gtp2.go (GTPv2-C header decoder: optional TEID, piggybacking flag,
    message length, information elements) as repaired (fixer: int offsets and IE header check; agent-lsmall:
    TEID and IEs cleared on decode).  Definitions only.
-   Line numbers of the repaired file: DecodeFromBytes :37-104, NextLayerType :132-134 (LayerTypePayload).
+   Line numbers of the repaired file: DecodeFromBytes :36-98, decodeGTPv2 :100-109, NextLayerType :132-134 (LayerTypePayload).
    No SerializeTo (C06/C07 n/a).  `orig` selects the behaviour before the two agent-lsmall repairs
    (TEID kept from the earlier packet when the T flag is clear; IEs appended to those of the earlier packet). *)
 From GP Require Import Base Codec MiscLib.
@@ -75,3 +75,13 @@ Definition g2_decode_orig := g2_decode_gen true.
 
 Definition g2_next (l : gtp2) : Z := 0.                                               (* :132-134 LayerTypePayload *)
 Definition g2_render_panics (l : gtp2) : bool := false.
+
+(* decodeGTPv2 :100-109, the registered decoder: a new object, the packet builder as feedback; on success the layer is
+   added and NextLayerType() (LayerTypePayload, id 0) handed to NextDecoder.  Result: the object, whether it was added,
+   the next decoder asked for, outcome, truncated flag. *)
+Definition g2_decode_fn (data : list Z) : gtp2 * bool * option Z * outcome unit * bool :=
+  let '(l, o, tr) := g2_decode_into g2_fresh data in
+  match o with
+  | Ok _ => (l, true, Some (g2_next l), Ok tt, tr)
+  | _ => (l, false, None, o, tr)
+  end.
